@@ -1,9 +1,9 @@
 (* Props/C19.v — ill-formed requests are rejected, not answered.
    For each operation: guard_<op> (the checks the code performs, Model/C19Guards.v) = decide (pre_<op>), i.e.
-   pre = false -> Err and pre = true -> Ok tt; where the code is weaker: the full statement is refuted by a
-   witness and the partial statement is proved.  Only statements, `exact`, Print Assumptions. *)
+   pre = false -> Err and pre = true -> Ok tt; where the code is still weaker (open known findings): the full statement
+   is refuted by a witness and the partial statement is proved.  Only statements, `exact`, Print Assumptions. *)
 From Coq Require Import List ZArith Bool.
-From PV Require Import Np.NpZ Gen.GenUtils Model.C19Guards Proofs.C19Proofs Proofs.C19Ttv.
+From PV Require Import Np.NpZ Gen.GenUtils Model.C19Guards Proofs.C19Proofs Proofs.C19Ttv Proofs.C19More.
 Import ListNotations.
 Local Open Scope Z_scope.
 
@@ -44,25 +44,39 @@ Print Assumptions C19_tensor_permute_partial.
 Example C19_tensor_permute_ex : guard_tensor_permute [2; 3; 4] [2; 0; 1] = Ok tt /\ guard_tensor_permute [2; 3; 4] [2; 0; 0] = Err.
 Proof. split; reflexivity. Qed.
 
-Theorem C19_tensor_binop_refuted : ~ tensor_binop_stmt.
-Proof. exact tensor_binop_refuted. Qed.
-Print Assumptions C19_tensor_binop_refuted.
-Theorem C19_tensor_binop_accepts : forall s u, pre_tensor_binop s u = true -> guard_tensor_binop s u = Ok tt.
-Proof. exact tensor_binop_accepts. Qed.
-Print Assumptions C19_tensor_binop_accepts.
-Theorem C19_tensor_binop_rejects_partial : forall s u,
-  length s = length u -> forallb (fun x => negb (x =? 1)) s = true -> forallb (fun x => negb (x =? 1)) u = true ->
-  pre_tensor_binop s u = false -> guard_tensor_binop s u = Err.
-Proof. exact tensor_binop_rejects_partial. Qed.
-Print Assumptions C19_tensor_binop_rejects_partial.
+(* dense element-wise binary operations (C19-N02 repaired: tenfun_binary compares the shapes) *)
+Theorem C19_tensor_binop : forall s u, guard_tensor_binop s u = decide (pre_tensor_binop s u).
+Proof. exact tensor_binop_decides. Qed.
+Print Assumptions C19_tensor_binop.
+Example C19_tensor_binop_ex : guard_tensor_binop [2; 3] [1; 3] = Err /\ guard_tensor_binop [2; 3] [2; 3] = Ok tt.
+Proof. split; reflexivity. Qed.
 
-Theorem C19_tensor_contract_refuted : ~ tensor_contract_stmt.
-Proof. exact tensor_contract_refuted. Qed.
-Print Assumptions C19_tensor_contract_refuted.
-Theorem C19_tensor_contract_rejects_partial : forall s i1 i2, 0 <= i1 -> 0 <= i2 ->
-  pre_tensor_contract s i1 i2 = false -> guard_tensor_contract s i1 i2 = Err.
-Proof. exact tensor_contract_rejects_partial. Qed.
-Print Assumptions C19_tensor_contract_rejects_partial.
+(* contract (C19-N03 repaired: modes are range-checked first) *)
+Theorem C19_tensor_contract : forall s i1 i2, guard_tensor_contract s i1 i2 = decide (pre_tensor_contract s i1 i2).
+Proof. exact tensor_contract_decides. Qed.
+Print Assumptions C19_tensor_contract.
+Example C19_tensor_contract_ex : guard_tensor_contract [3; 3] (-1) 0 = Err /\ guard_tensor_contract [3; 2; 3] 2 0 = Ok tt
+  /\ guard_tensor_contract [3; 2; 3] 1 0 = Err.
+Proof. repeat split; reflexivity. Qed.
+
+(* mttkrp(U, n) on a dense tensor *)
+Theorem C19_tensor_mttkrp : forall s us n, guard_tensor_mttkrp s us n = decide (pre_mttkrp s us n).
+Proof. exact tensor_mttkrp_decides. Qed.
+Print Assumptions C19_tensor_mttkrp.
+Example C19_tensor_mttkrp_ex : guard_tensor_mttkrp [2; 3; 4] [(2, 2); (3, 2); (4, 2)] 0 = Ok tt
+  /\ guard_tensor_mttkrp [2; 3; 4] [(2, 2); (4, 2); (3, 2)] 0 = Err /\ guard_tensor_mttkrp [2; 3; 4] [(2, 2); (3, 2); (4, 2)] (-1) = Err.
+Proof. repeat split; reflexivity. Qed.
+
+(* collapse(dims) over the generated tt_dimscheck *)
+Theorem C19_tensor_collapse_refuted : ~ tensor_collapse_stmt.
+Proof. exact tensor_collapse_refuted. Qed.
+Print Assumptions C19_tensor_collapse_refuted.
+Theorem C19_tensor_collapse_partial : forall s d, zprod s <> 0 -> guard_tensor_collapse s d = decide (pre_collapse s d).
+Proof. exact tensor_collapse_partial. Qed.
+Print Assumptions C19_tensor_collapse_partial.
+Example C19_tensor_collapse_ex : guard_tensor_collapse [2; 3; 4] [2; 0] = Ok tt /\ guard_tensor_collapse [2; 3; 4] [0; 0] = Err
+  /\ guard_tensor_collapse [2; 3; 4] [3] = Err.
+Proof. repeat split; reflexivity. Qed.
 
 (* ---- requests shared by several classes ---- *)
 (* "two operands of the same shape": sptensor + - * & | ==, ktensor innerprod / +, ttensor innerprod, tenmat +, sumtensor + / innerprod *)
@@ -77,24 +91,38 @@ Example C19_sorted_perm_ex : guard_sorted_perm [2; 3; 4] [2; 0; 1] = Ok tt /\ gu
 Proof. repeat split; reflexivity. Qed.
 
 (* ---- sptensor ---- *)
-Theorem C19_sptensor_innerprod_refuted : ~ sptensor_innerprod_stmt.
-Proof. exact sptensor_innerprod_refuted. Qed.
-Print Assumptions C19_sptensor_innerprod_refuted.
-Theorem C19_sptensor_innerprod_partial : forall s u, guard_sptensor_innerprod s false u = decide (pre_sptensor_innerprod s false u).
-Proof. exact sptensor_innerprod_partial. Qed.
-Print Assumptions C19_sptensor_innerprod_partial.
+Theorem C19_sptensor_innerprod : forall s e u, guard_sptensor_innerprod s e u = decide (pre_sptensor_innerprod s e u).
+Proof. exact sptensor_innerprod_decides. Qed.
+Print Assumptions C19_sptensor_innerprod.
+Example C19_sptensor_innerprod_ex : guard_sptensor_innerprod [2; 3] true [3; 2] = Err /\ guard_sptensor_innerprod [2; 3] true [2; 3] = Ok tt.
+Proof. split; reflexivity. Qed.
+(* the constructor: the lower bound of the subscripts is not checked by the code (C19-N14) *)
+Theorem C19_sptensor_ctor_refuted : ~ sptensor_ctor_stmt.
+Proof. exact sptensor_ctor_refuted. Qed.
+Print Assumptions C19_sptensor_ctor_refuted.
+Theorem C19_sptensor_ctor_partial : forall s subs nvals,
+  subs <> [] -> hd [] subs <> [] -> (forall row, In row subs -> zlen row = zlen (hd [] subs)) ->
+  (forall row x, In row subs -> In x row -> 0 <= x) ->
+  guard_sptensor_ctor s subs nvals = decide (pre_sptensor_ctor s subs nvals).
+Proof. exact sptensor_ctor_partial. Qed.
+Print Assumptions C19_sptensor_ctor_partial.
+Example C19_sptensor_ctor_ex : guard_sptensor_ctor [4] [[0]; [3]] 3 = Err /\ guard_sptensor_ctor [2; 3] [[0; 2]; [1; 1]] 2 = Ok tt
+  /\ guard_sptensor_ctor [2; 3] [[0; 3]; [1; 1]] 2 = Err.
+Proof. repeat split; reflexivity. Qed.
 
 (* ---- ktensor ---- *)
 Theorem C19_ktensor_ctor : forall ms w, guard_ktensor_ctor ms w = decide (pre_ktensor_ctor ms w).
 Proof. exact ktensor_ctor_decides. Qed.
 Print Assumptions C19_ktensor_ctor.
-Theorem C19_ktensor_arrange_refuted : ~ ktensor_arrange_stmt.
-Proof. exact ktensor_arrange_refuted. Qed.
-Print Assumptions C19_ktensor_arrange_refuted.
-Theorem C19_ktensor_arrange_partial : forall R p, (forall x, In x p -> 0 <= x) -> nodupb p = true ->
-  guard_ktensor_arrange R p = decide (pre_ktensor_arrange R p).
-Proof. exact ktensor_arrange_partial. Qed.
-Print Assumptions C19_ktensor_arrange_partial.
+Theorem C19_ktensor_arrange : forall R p, guard_ktensor_arrange R p = decide (pre_ktensor_arrange R p).
+Proof. exact ktensor_arrange_decides. Qed.
+Print Assumptions C19_ktensor_arrange.
+Example C19_ktensor_arrange_ex : guard_ktensor_arrange 3 [2; 0; 1] = Ok tt /\ guard_ktensor_arrange 2 [0; 0] = Err /\ guard_ktensor_arrange 2 [-1; 0] = Err.
+Proof. repeat split; reflexivity. Qed.
+(* a single mode argument (ktensor.redistribute, C19-N07 repaired) *)
+Theorem C19_mode : forall s n, guard_mode s n = decide (pre_mode s n).
+Proof. exact mode_decides. Qed.
+Print Assumptions C19_mode.
 Theorem C19_ktensor_extract : forall R idx, guard_ktensor_extract R idx = decide (pre_ktensor_extract R idx).
 Proof. exact ktensor_extract_decides. Qed.
 Print Assumptions C19_ktensor_extract.
@@ -106,15 +134,12 @@ Print Assumptions C19_ttensor_ctor.
 Example C19_ttensor_ctor_ex : guard_ttensor_ctor [2; 3] [(4, 2); (5, 3)] = Ok tt /\ guard_ttensor_ctor [2; 3] [(4, 3); (5, 2)] = Err.
 Proof. split; reflexivity. Qed.
 
-(* ---- sptenmat (A-44) ---- *)
-Theorem C19_sptenmat_ctor_refuted : ~ sptenmat_ctor_stmt.
-Proof. exact sptenmat_ctor_refuted. Qed.
-Print Assumptions C19_sptenmat_ctor_refuted.
-Theorem C19_sptenmat_ctor_partial : forall mr mc rd cd ts,
-  mr <> zprod (pickz ts rd) -> mc <> zprod (pickz ts cd) ->
-  guard_sptenmat_ctor mr mc rd cd ts = decide (pre_sptenmat_ctor mr mc rd cd ts).
-Proof. exact sptenmat_ctor_partial. Qed.
-Print Assumptions C19_sptenmat_ctor_partial.
+(* ---- sptenmat (A-44 repaired) ---- *)
+Theorem C19_sptenmat_ctor : forall mr mc rd cd ts, guard_sptenmat_ctor mr mc rd cd ts = decide (pre_sptenmat_ctor mr mc rd cd ts).
+Proof. exact sptenmat_ctor_decides. Qed.
+Print Assumptions C19_sptenmat_ctor.
+Example C19_sptenmat_ctor_ex : guard_sptenmat_ctor 2 1 [0] [1] [2; 2] = Err /\ guard_sptenmat_ctor 1 1 [0] [1] [2; 2] = Ok tt.
+Proof. split; reflexivity. Qed.
 
 (* ---- tenmat product, sumtensor constructor, khatrirao, import_data ---- *)
 Theorem C19_tenmat_mul : forall a b, guard_tenmat_mul a b = decide (pre_tenmat_mul a b).
@@ -130,6 +155,44 @@ Theorem C19_import : forall t n k, guard_import t n k = decide (pre_import t n k
 Proof. exact import_decides. Qed.
 Print Assumptions C19_import.
 
+(* ---- algorithm options ---- *)
+Theorem C19_cp_als : forall s rank init dimorder, guard_cp_als s rank init dimorder = decide (pre_cp_als s rank init dimorder).
+Proof. exact cp_als_decides. Qed.
+Print Assumptions C19_cp_als.
+Example C19_cp_als_ex : guard_cp_als [2; 3; 4] 2 InitRandom (Some [0; 1; 2; 2]) = Err /\ guard_cp_als [2; 3; 4] 2 (InitK [2; 3; 4] 2) (Some [2; 0; 1]) = Ok tt
+  /\ guard_cp_als [2; 3; 4] 2 (InitK [2; 4; 3] 2) None = Err.
+Proof. repeat split; reflexivity. Qed.
+Theorem C19_hosvd : forall s ranks dimorder, guard_hosvd s ranks dimorder = decide (pre_hosvd s ranks dimorder).
+Proof. exact hosvd_decides. Qed.
+Print Assumptions C19_hosvd.
+
+Theorem C19_cp_apr : forall s rank init alg_ok, guard_cp_apr s rank init alg_ok = decide (pre_cp_apr s rank init alg_ok).
+Proof. exact cp_apr_decides. Qed.
+Print Assumptions C19_cp_apr.
+Theorem C19_tucker_als : forall s ranks init dimorder maxiters,
+  guard_tucker_als s ranks init dimorder maxiters = decide (pre_tucker_als s ranks init dimorder maxiters).
+Proof. exact tucker_als_decides. Qed.
+Print Assumptions C19_tucker_als.
+Example C19_tucker_als_ex : guard_tucker_als [3; 2] [2; 2; 1] InitRandom None 1 = Err /\ guard_tucker_als [2; 3; 4] [2] InitRandom (Some [2; 0; 1]) 1 = Ok tt
+  /\ guard_tucker_als [2; 3; 4] [2; 2; 2] (InitList [(9, 9); (3, 2); (4, 2)]) None 1 = Ok tt
+  /\ guard_tucker_als [2; 3; 4] [2; 2; 2] (InitList [(2, 2); (4, 2); (3, 2)]) None 1 = Err.
+Proof. repeat split; reflexivity. Qed.
+
+(* ---- further multilinear products ---- *)
+(* sptensor.ttv / ktensor.ttv / ttensor.ttv / sumtensor.ttv: tt_dimscheck + the size loop, nothing else can fail *)
+Theorem C19_ttv_checks : forall s vlens dims excl, guard_ttv_checks s vlens dims excl = decide (pre_ttv s vlens dims excl).
+Proof. exact ttv_checks_decides. Qed.
+Print Assumptions C19_ttv_checks.
+Example C19_ttv_checks_ex : guard_ttv_checks [2; 3; 4] [3; 2] None (Some [2]) = Err /\ guard_ttv_checks [2; 3; 4] [2; 3] None (Some [2]) = Ok tt
+  /\ guard_ttv_checks [2; 3; 4] [4; 3; 2] None None = Err.
+Proof. repeat split; reflexivity. Qed.
+Theorem C19_sptensor_collapse : forall s d, guard_sptensor_collapse s d = decide (pre_collapse s d).
+Proof. exact sptensor_collapse_decides. Qed.
+Print Assumptions C19_sptensor_collapse.
+Theorem C19_ttensor_mttkrp : forall s us n, guard_ttensor_mttkrp s us n = decide (pre_mttkrp s us n).
+Proof. exact ttensor_mttkrp_decides. Qed.
+Print Assumptions C19_ttensor_mttkrp.
+
 (* ---- mode selection through the generated tt_dimscheck (A-42 repaired) ---- *)
 Theorem C19_dimscheck_rejects_bad_modes : forall N M d, modes_ok N d = false -> tt_dimscheck N M (Some d) None = Err.
 Proof. exact dimscheck_rejects_bad_modes. Qed.
@@ -143,6 +206,18 @@ Print Assumptions C19_tensor_ttv_rejects_bad_modes.
 Theorem C19_tensor_ttm_rejects_bad_modes : forall s ms d tr, modes_ok (ndim s) d = false -> guard_tensor_ttm s ms (Some d) None tr = Err.
 Proof. exact tensor_ttm_rejects_bad_modes. Qed.
 Print Assumptions C19_tensor_ttm_rejects_bad_modes.
+(* the full statements: every request (explicit modes / excluded modes / default; one multiplicand per listed mode or per
+   tensor mode) is rejected exactly when its precondition fails *)
+Theorem C19_tensor_ttv : forall s vlens dims excl, guard_tensor_ttv s vlens dims excl = decide (pre_tensor_ttv s vlens dims excl).
+Proof. exact tensor_ttv_decides. Qed.
+Print Assumptions C19_tensor_ttv.
+Theorem C19_tensor_ttm : forall s ms dims excl tr, guard_tensor_ttm s ms dims excl tr = decide (pre_tensor_ttm s ms dims excl tr).
+Proof. exact tensor_ttm_decides. Qed.
+Print Assumptions C19_tensor_ttm.
+Example C19_tensor_ttm_ex : guard_tensor_ttm [2; 3; 4] [(5, 4); (6, 2)] (Some [2; 0]) None false = Ok tt
+  /\ guard_tensor_ttm [2; 3; 4] [(5, 2); (6, 4)] (Some [2; 0]) None false = Err
+  /\ guard_tensor_ttm [2; 3] [(2, 2); (2, 2)] (Some [0; 0]) None false = Err.
+Proof. repeat split; reflexivity. Qed.
 Theorem C19_tensor_ttv_rejects_both : forall s vlens d e, guard_tensor_ttv s vlens (Some d) (Some e) = Err.
 Proof. exact tensor_ttv_rejects_both. Qed.
 Print Assumptions C19_tensor_ttv_rejects_both.
